@@ -280,8 +280,8 @@ pub fn execute(case: &StreamCase, st: &mut Stats) -> Exec {
         // b) terminal outcome of the same kind
         let a = results.get(n_main);
         let b = refr.get(n_main);
-        if let Cut::ShortLen(_) | Cut::Oversize(_) = term {
-            // nothing is required of either reader beyond not panicking
+        if matches!(b, Some(r) if r.is_panic()) {
+            // the blocking reader itself panics here: that is C07's finding, there is nothing to compare with
         } else if failed {
             if !matches!(a, Some(r) if *r == Res::None || r.is_err()) {
                 v.push(Violation::new("C08.b", "terminal-after-io-error", format!("task {}: after a hard I/O error the async reader returned {:?}", t, a.map(|r| r.short()))));
